@@ -118,6 +118,7 @@ Inductive macro :=
 | MRounds (n : nat)
 | MDispatch (n : nat)
 | MKillIdle (j : nat)                                   (* kill the j-th process of the executor from outside *)
+| MRetireAll                                            (* every idle worker exits cleanly (idle time-out) *)
 | MMask (b : bool)                                      (* the manager stops / resumes noticing deaths *)
 | MMgr (n : nat).                                       (* let the manager thread loop n times *)
 
@@ -136,6 +137,7 @@ Definition dmacro (d : dstate) (m : macro) : dstate :=
     | Some p => mkD (pstep (dpool d) (Ex (Die p))) (traps d) (p :: killed d) (cur_procs d ++ seen d) (masked d)
     | None => d
     end
+  | MRetireAll => iter (length (cur_procs d) + 2) mgr_turn (fold_left (fun d p => dex d (Retire p)) (cur_procs d) d)
   | MMask b => mkD (dpool d) (traps d) (killed d) (seen d) b
   | MMgr n => iter n mgr_turn d
   end.
